@@ -3,7 +3,7 @@
    The claim is PARTIAL: the heap model (Heap.v) abstracts CPython object semantics. *)
 From Coq Require Import ZArith List Bool.
 Import ListNotations.
-Require Import PyBase Heap HeapFacts HeapFrame HeapCopy HeapSim HeapHistory HeapOps HeapLinkerSim HeapProtect HeapLinkerCopySim HeapLinkerInit HeapForest HeapExamples.
+Require Import PyBase Heap HeapFacts HeapFrame HeapCopy HeapSim HeapHistory HeapOps HeapLinkerSim HeapProtect HeapLinkerCopySim HeapLinkerInit HeapForest HeapForestCopy HeapExamples.
 Open Scope Z_scope.
 
 (* copy.deepcopy creates only new objects: the old heap is a prefix of the new one, the result refers to new objects only *)
@@ -316,6 +316,38 @@ Theorem C11_no_internal_alias_example :
    forestb 5 (sh s1) = true /\ forestb 5 (sh s2) = true /\ root_views s1 7 = root_views s2 7).
 Proof. exact (conj ex_forest_hypotheses ex_forest_through_copy_and_init). Qed.
 
+(* the gap through copy.deepcopy, closed for TREE-LIKE sources.  nodes f h v unfolds the graph below v exactly as deepcopy walks
+   it and lists every visit; treelike = that list has no duplicates (no object reached twice: no cycle, no aliasing below v).
+   Then deepcopy never finds its argument in the memo: the heap stays a forest, no old object gains a referrer, and the result is
+   a new object that nothing refers to *)
+Theorem C11_deepcopy_keeps_forest N h v h' v' :
+  deepcopy h v = Some (h', v') -> treelike h v -> wf h -> (N <= length h)%nat -> forest N h ->
+  wf h' /\ forest N h' /\ ext h h' /\
+  (forall x, (x < length h)%nat -> orphan N h x -> orphan N h' x) /\
+  match v' with VS _ => True | VR b => (length h <= b < length h')%nat /\ orphan N h' b end.
+Proof. exact (deepcopy_forest N h v h' v'). Qed.
+
+(* the heart of copy() under EITHER memo policy ({k: deepcopy(v)} with a memo per entry, or deepcopy(__dict__) with one memo): if
+   the entries of the original are jointly tree-like, the copied entries are pairwise different new objects that nothing refers to
+   yet, in a heap that is still a forest, and no old object gained a referrer.  (Still open: the same through __init__ of the new
+   instance and the final __dict__.update, and the preservation of tree-likeness itself along histories; both are observed by the
+   correspondence - a copy never has aliasing its original lacks - not proved.) *)
+Theorem C11_copy_entries_keep_forest single N cs h h' cs' :
+  dc_entries_pol single h cs = Some (h', cs') -> entries_tree h cs -> wf h -> (N <= length h)%nat -> forest N h ->
+  wf h' /\ forest N h' /\ ext h h' /\
+  (forall x, (x < length h)%nat -> orphan N h x -> orphan N h' x) /\
+  cells_res N (length h) h' cs' /\ map fst cs' = map fst cs.
+Proof. exact (dc_entries_pol_forest single N cs h h' cs'). Qed.
+
+(* ... hypotheses satisfiable and decidable (a traced instance after a long operation history; both policies); and needed (after the
+   user aliased two entries they are not jointly tree-like) *)
+Theorem C11_copy_entries_example :
+  (length fc_cells = 19%nat /\ wf (sh s_fc) /\ forest 5 (sh s_fc) /\ entries_tree (sh s_fc) fc_cells /\
+   (exists h' cs', dc_entries_pol false (sh s_fc) fc_cells = Some (h', cs')) /\
+   (exists h' cs', dc_entries_pol true (sh s_fc) fc_cells = Some (h', cs'))) /\
+  entries_treeb (sh s_ua) (match nth_error (sh s_ua) 5 with Some o => ocells o | None => [] end) = false.
+Proof. exact (conj ex_entries_tree_hypotheses ex_entries_tree_needed). Qed.
+
 (* both memo policies of copy() (consts field k_single_memo; every theorem of this file is quantified over K, hence over both):
    they differ only where the USER aliased two entries of one object (m.mine = m.names); both copies equal the original at copy
    time and share nothing with it; the same later append tells them apart and reaches the original in neither case *)
@@ -398,3 +430,6 @@ Print Assumptions C11_operations_use_fresh_sources.
 Print Assumptions C11_forest_has_unique_paths.
 Print Assumptions C11_operations_create_no_internal_alias.
 Print Assumptions C11_no_internal_alias_example.
+Print Assumptions C11_deepcopy_keeps_forest.
+Print Assumptions C11_copy_entries_keep_forest.
+Print Assumptions C11_copy_entries_example.
